@@ -22,8 +22,24 @@ func detCases(r *rand.Rand, n int, maxStates int) []*gen.Case {
 	var cases []*gen.Case
 	for i := 0; i < n; i++ {
 		c := &gen.Case{}
+		wide := i%6 == 5
+		switch {
+		case wide:
+			// a WIDE machine: size-dependent code paths (set algebra over long lists)
+			k := 9 + r.Intn(6)
+			c.Names = am.S{}
+			c.Schema = am.Schema{}
+			for j := 0; j < k; j++ {
+				nm := fmt.Sprintf("S%02d", j)
+				c.Names = append(c.Names, nm)
+				c.Schema[nm] = am.State{Multi: r.Intn(5) == 0}
+			}
+		}
 		switch i % 4 {
 		case 0: // k auto states, no relations
+			if wide {
+				break
+			}
 			k := 2 + r.Intn(3)
 			c.Names = am.S{}
 			c.Schema = am.Schema{}
@@ -35,6 +51,9 @@ func detCases(r *rand.Rand, n int, maxStates int) []*gen.Case {
 			c.Names = append(c.Names, "T")
 			c.Schema["T"] = am.State{}
 		case 1: // several Require components
+			if wide {
+				break
+			}
 			c.Names = am.S{"A", "B", "C", "D", "E", "F"}
 			c.Schema = am.Schema{
 				"A": {Require: am.S{"B"}}, "B": {},
@@ -42,6 +61,9 @@ func detCases(r *rand.Rand, n int, maxStates int) []*gen.Case {
 				"E": {Require: am.S{"F"}}, "F": {},
 			}
 		default:
+			if wide {
+				break
+			}
 			ns := 3 + r.Intn(maxStates-2)
 			c.Names, c.Schema = gen.RandSchema(r, ns, 0.15+0.25*r.Float64(), true, true)
 		}
@@ -51,7 +73,25 @@ func detCases(r *rand.Rand, n int, maxStates int) []*gen.Case {
 		if c.On {
 			c.Binds = []rec.Binding{gen.FullBinding(index)}
 		}
-		c.Calls = gen.RandCalls(r, c, 4, 0.3, 1)
+		if wide {
+			// Add all, Remove several, Add a few, Set a few, Remove most
+			pick := func(n int) am.S {
+				p := r.Perm(len(c.Names))
+				out := am.S{}
+				for _, x := range p[:n] {
+					out = append(out, c.Names[x])
+				}
+				return out
+			}
+			mk := func(t string, called am.S) gen.Call {
+				return gen.Call{Ev: "call", Type: t, Called: called, Veto: [][]any{}, Nest: []gen.NestAt{}}
+			}
+			c.Calls = []gen.Call{mk("add", append(am.S{}, c.Names...)), mk("remove", pick(2+r.Intn(4))),
+				mk("add", pick(2+r.Intn(3))), mk("set", pick(1+r.Intn(3))), mk("add", pick(len(c.Names)-1)),
+				mk("remove", pick(len(c.Names)-2))}
+		} else {
+			c.Calls = gen.RandCalls(r, c, 4, 0.3, 1)
+		}
 		cases = append(cases, c)
 	}
 	return cases
